@@ -9,6 +9,7 @@ exit 3  engine problem (traceback, a must-fail twin proved, ledger group missing
 import concurrent.futures as cf
 import fnmatch
 import importlib
+import glob
 import json
 import multiprocessing
 import os
@@ -173,7 +174,14 @@ def run_check(prop_id, tier, seed, procs=None, only=None):
 
     import shutil
     if not only:
-        shutil.rmtree(os.path.join(ROOT, 'replays', prop_id), ignore_errors=True)
+        # replay files live in a directory per (property, tier): a quick and a thorough run of the same property may be in flight
+        # at the same time and must not delete each other's files
+        shutil.rmtree(os.path.join(ROOT, 'replays', prop_id, tier), ignore_errors=True)
+        for fn in glob.glob(os.path.join(ROOT, 'replays', prop_id, '*.json')):      # files of the older flat layout
+            try:
+                os.unlink(fn)
+            except OSError:
+                pass
     allobs = [o for g, _ in groups for o in results.get(g, [])]
     twins = [o for o in allobs if o['kind'] == 'twin']
     xchecks = [o for o in allobs if o['kind'] == 'xcheck']
@@ -219,15 +227,28 @@ def run_check(prop_id, tier, seed, procs=None, only=None):
         os.makedirs(os.path.join(ROOT, 'ledger'), exist_ok=True)
         led = json.load(open(lp)) if os.path.exists(lp) else {}
         led[tier] = {g: len([o for o in results.get(g, []) if o['kind'] not in ('twin', 'engine')]) for g, _ in groups}
-        json.dump(led, open(lp, 'w'), indent=0, sort_keys=True)
+        with open(lp + '.%d.tmp' % os.getpid(), 'w') as fh:
+            json.dump(led, fh, indent=0, sort_keys=True)
+        os.replace(lp + '.%d.tmp' % os.getpid(), lp)
         ledger_missing = []
 
     # ---------------- replay refutations against the real code
     lines = []
     nviol = 0
     if new_viol:
-        rdir = os.path.join(ROOT, 'replays', prop_id)
+        rdir = os.path.join(ROOT, 'replays', prop_id, tier)
         os.makedirs(rdir, exist_ok=True)
+
+        def _dump(doc_, path_):
+            for attempt in (0, 1):
+                try:
+                    os.makedirs(os.path.dirname(path_), exist_ok=True)
+                    with open(path_, 'w') as fh:
+                        json.dump(doc_, fh, indent=1, default=str)
+                    return
+                except OSError:
+                    if attempt:
+                        print('WARNING could not write replay file %s' % path_)
         # one VIOLATION line per distinct obligation family, at most 8 replays
         fams = {}
         for o in new_viol:
@@ -246,6 +267,8 @@ def run_check(prop_id, tier, seed, procs=None, only=None):
             try:
                 if o['name'].startswith('frame:shared-state/'):
                     case = importlib.import_module('props.C09').replay_case(o)
+                elif 'documented-default-arguments:' in o['name']:
+                    case = dict(kind='common.defaults', keys=[o['name'].split('documented-default-arguments:', 1)[1]])
                 else:
                     case = mod.replay_case(o) if hasattr(mod, 'replay_case') else None
             except Exception:
@@ -255,14 +278,14 @@ def run_check(prop_id, tier, seed, procs=None, only=None):
                        smt2=o.get('smt2'), case=case, tier=tier)
             reproduced = False
             if case and 'error' not in case:
-                json.dump(doc, open(path, 'w'), indent=1, default=str)
+                _dump(doc, path)
                 try:
                     outcome = run_native(path)
                 except Exception as e:
                     outcome = dict(reproduced=False, error=repr(e))
                 doc['native_replay'] = outcome
                 reproduced = bool(outcome.get('reproduced'))
-            json.dump(doc, open(path, 'w'), indent=1, default=str)
+            _dump(doc, path)
             lines.append('VIOLATION property=%s replay=%s obligation=%s%s' % (
                 prop_id, path, o['name'], '' if reproduced else ' no-failing-input-found'))
     total_viol = len(new_viol)
@@ -346,7 +369,11 @@ def run_check(prop_id, tier, seed, procs=None, only=None):
     evdir = os.environ.get('NDVC_EVIDENCE_DIR') or os.path.join(ROOT, 'evidence')     # tools/run_seeds.py redirects it
     os.makedirs(evdir, exist_ok=True)
     if not only:
-        json.dump(ev, open(os.path.join(evdir, prop_id + '.json'), 'w'), indent=1, default=str)
+        # written to a temporary name and renamed: a reader (or a second run of the same property) never sees half a file
+        tmp_ev = os.path.join(evdir, '.%s.%d.tmp' % (prop_id, os.getpid()))
+        with open(tmp_ev, 'w') as fh:
+            json.dump(ev, fh, indent=1, default=str)
+        os.replace(tmp_ev, os.path.join(evdir, prop_id + '.json'))
 
     print('[%s %s] groups=%d obligations=%d discharged=%d refuted(new)=%d known=%d unknown=%d errors=%d twins=%d/%d '
           'xcheck=%d/%d wall=%.1fs' % (prop_id, tier, len(groups), len(counted), len(discharged), total_viol,
